@@ -2,6 +2,7 @@
 from build import AnalysisBroken
 from ir import Agg, Const
 import paths as P
+import decoder_rules as DR
 import termeval
 import rules
 
@@ -254,7 +255,17 @@ def run(ctx, chk):
     # ---- reach -----------------------------------------------------------------------
     for name, kind in (("cbor_build_string", "strlen"), ("cbor_build_stringn", "param"), ("cbor_builder_string_callback", "param")):
         fn = prog.fn(name)
-        paths_ = P.Executor(prog, eff).run(name)
+        # library routines this function delegates the copy/attachment to are inlined (so the rule speaks about the
+        # buffer that finally reaches cbor_string_set_handle, whoever allocates and copies it)
+        import ownership as O_
+        inl = set(O_.static_callees(prog, eff, name))
+        for c_ in eff.transitive_callees(name):
+            if c_ in prog.funcs and c_ not in ("cbor_string_set_handle", name) and c_ not in eff.transitive_callees(c_) and \
+                    "cbor_string_set_handle" in eff.transitive_callees(c_):
+                inl.add(c_)
+                inl |= O_.static_callees(prog, eff, c_)
+        paths_ = P.Executor(prog, eff, inline=inl).run(name)
+        names_ = [p_["name"] for p_ in fn.params]
         n_attach = 0
         good = True
         det = ""
@@ -269,9 +280,15 @@ def run(ctx, chk):
                 # the allocation request equals the length
                 mal = [e for e in pa.events if e.kind == "call" and e.res == h]
                 okal = bool(mal) and mal[0].args[0] == ln
-                if not (okh and okcpy and okal):
+                # ... and it is the caller's length (or strlen of the caller's string)
+                if kind == "param":
+                    okln = "length" in names_ and ln == ("arg", names_.index("length"))
+                else:
+                    okln = ln[0] == "call" and ln[1] == "strlen" and any(e.kind == "call" and e.res == ln and e.args[0] == ("arg", 0) for e in pa.events)
+                if not (okh and okcpy and okal and okln):
                     good = False
-                    det = "handle=%r length=%r copy/alloc mismatch" % (h, ln)
+                    det = "handle=%r length=%r copy/alloc mismatch" % (h, ln) if okln else \
+                        "attached length %s is not the %s" % (DR.fmt_term(ln), "length the caller passed" if kind == "param" else "strlen of the argument")
         chk.ob("C16.reach", "%s attaches the copied buffer with the same length" % name, good and n_attach >= 1,
                "%s:%d" % (fn.file, fn.line), fn=name, detail=det or ("no attachment found" if not n_attach else ""))
     cb = prog.fn("cbor_builder_string_callback")
